@@ -586,6 +586,9 @@ func (e *Engine) VerifyFunc(fc *FuncContract) *FuncResult {
 			}
 		}
 		for i, en := range fc.Ensures {
+			if fc.Trusted && !strings.HasPrefix(en.Tag, "body:") {
+				continue
+			}
 			be, ok := en.Expr.(*EBinary)
 			if !ok || be.Op != "==>" {
 				continue
@@ -625,6 +628,11 @@ func (e *Engine) VerifyFunc(fc *FuncContract) *FuncResult {
 		}
 		penv := &SpecEnv{x: x, st: out, old: x.entry, vars: post, pkg: fn.Pkg.Pkg, inCall: true, pol: -1}
 		for i, en := range fc.Ensures {
+			if fc.Trusted && !strings.HasPrefix(en.Tag, "body:") {
+				// "trusted" + "opt verify-body": callers rely on the trusted clauses (abstractions of
+				// external code); the body is checked against the [body:...] clauses and call rules only
+				continue
+			}
 			t, err := x.evalBool(en.Expr, penv)
 			if err != nil {
 				res.Err = fmt.Errorf("%s:%d: ensures: %w", en.File, en.Line, err)
